@@ -145,6 +145,32 @@ def selfToPath (kres kpath : List Q3) : Option (List Nat) :=
   let m := pathMapping kres kpath
   if (m.zip kpath).all (fun ip => pdist2 (kres.getD ip.1 (0, 0, 0)) ip.2 == 0) then some m else none
 
+/-! ### KBandResult.get_component / TABresult.get_data for index tuples -/
+
+/-- a tensor value at one (k, band): the map from the full tuple of Cartesian indices to the entry
+    (numpy: the Cartesian axes are the LAST axes of `data`) -/
+abbrev Tensor := List Nat → Rat
+
+/-- numpy `X[..., k]` : fix the LAST axis to `k` -/
+def peelLast (T : Tensor) (k : Nat) : Tensor := fun idx => T (idx ++ [k])
+
+/-- `for k in component[-1::-1]: Xnk = Xnk[..., k]` : the last entry of the tuple is applied first -/
+def getComponent (T : Tensor) (comp : List Nat) : Tensor := comp.reverse.foldl peelLast T
+
+/-- the rule of the seeded change W-C29: `for k in component: Xnk = Xnk[..., k]` -/
+def getComponentFwd (T : Tensor) (comp : List Nat) : Tensor := comp.foldl peelLast T
+
+/-- `KBandResult.to_path(k_map)` : `data[ik] for ik in k_map` -/
+def toPath {α} (d : α) (dataall : List α) (m : List Nat) : List α := m.map (fun i => dataall.getD i d)
+
+/-- `TABresult.get_data(quantity, component=comp)` of a path result: the values `V k` were computed at the k-points
+    `kres` (any order), reordered with the mapping `m` of `self_to_path`, then the component is taken -/
+def getDataPath (V : Q3 → Tensor) (kres : List Q3) (m : List Nat) (comp : List Nat) : List Rat :=
+  (toPath (V (0, 0, 0)) (kres.map V) m).map (fun T => getComponent T comp [])
+
+/-- a tensor of rank `r` stored C-ordered in a flat list -/
+def tensorOfFlat (flat : List Rat) : Tensor := fun idx => flat.getD (idx.foldl (fun acc i => acc * 3 + i) 0) 0
+
 /-! ### driver -/
 open WB.IO
 
@@ -205,6 +231,10 @@ def handle : List String → String
   | ["chunks", n, k] =>
     match parseNat? n, parseNat? k with
     | some n, some k => showNatss (chunks k (List.range n))
+    | _, _ => "bad-op"
+  | ["comp", flat, comp] =>
+    match parseRats? flat, parseNats? comp with
+    | some f, some c => showRat (getComponent (tensorOfFlat f) c [])
     | _, _ => "bad-op"
   | ["topath", kres, kpath] =>
     match (parseRatss? kres).bind (·.mapM toQ3), (parseRatss? kpath).bind (·.mapM toQ3) with
